@@ -213,9 +213,12 @@ def gen_ops(rng, prof, spec):
     ops = []
     now = 0
     n = rng.randint(prof.min_ops, prof.max_ops)
+    if OBJ_KEY in spec_str(spec) and rng.random() < 0.7:
+        # a tree with nested readers / writers of the object key mostly starts with an object to work on
+        ops.append("setbb %s %s" % (OBJ_KEY, rng.choice(OBJ_VALS[1:])))
     for _ in range(n):
         r = rng.random()
-        if r < prof.p_stop and ops:
+        if r < prof.p_stop and len(ops) > 1:
             ops.append("stop %d" % spec[1])
         elif r < prof.p_stop + prof.p_poke:
             x = rng.random()
